@@ -181,3 +181,7 @@ impl<BE: DecryptFullBackend> WriteBackend for DryRunBackend<BE> {
         }
     }
 }
+
+#[cfg(kani)]
+#[path = "/verif/harness/backend_dry_run.rs"]
+pub(crate) mod verif_harness;
